@@ -13,6 +13,7 @@
 #include <memory>
 #include <set>
 #include <unordered_map>
+#include <unordered_set>
 #include <vector>
 
 namespace crab {
@@ -54,12 +55,50 @@ class necessary_preconditions_fixpoint_iterator
   bb_abstract_map_t m_invariants;
   // preconditions from good states, otherwise from bad states
   bool m_good_states;
+  // blocks from which the exit block can be reached. The backward
+  // iteration only visits these blocks.
+  std::unordered_set<bb_label_t> m_reach_exit;
+
+  void compute_blocks_reaching_exit() {
+    m_reach_exit.clear();
+    if (!m_cfg.has_exit()) {
+      return;
+    }
+    crab::cfg::cfg_rev<CFG> rev_cfg(m_cfg);
+    std::vector<bb_label_t> worklist;
+    worklist.push_back(rev_cfg.entry());
+    while (!worklist.empty()) {
+      bb_label_t n = worklist.back();
+      worklist.pop_back();
+      if (!m_reach_exit.insert(n).second) {
+        continue;
+      }
+      for (auto const &child : rev_cfg.next_nodes(n)) {
+        if (m_reach_exit.find(child) == m_reach_exit.end()) {
+          worklist.push_back(child);
+        }
+      }
+    }
+  }
 
   /**
    * Compute necessary preconditions for a basic block
    **/
   virtual AbsDom analyze(const bb_label_t &node, AbsDom &&precond) override {
     auto &bb = m_cfg.get_node(node);
+
+    if (!m_good_states) {
+      // A successor that cannot reach the exit block is never visited
+      // by the backward iteration, so nothing is known about the
+      // errors reachable through it: any state leaving this block
+      // might lead to an error.
+      for (auto const &succ : m_cfg.next_nodes(node)) {
+        if (m_reach_exit.find(succ) == m_reach_exit.end()) {
+          precond = m_absval_fac.make_top();
+          break;
+        }
+      }
+    }
 
     CRAB_LOG("backward-fixpoint",
              crab::outs() << "Post at "
@@ -138,6 +177,7 @@ public:
   
   // postcond: final states that we want to propagate backwards  
   void run_backward(AbsDom postcond) { 
+    compute_blocks_reaching_exit();
     this->run(postcond);
   }
 
